@@ -153,6 +153,11 @@ REGRESSIONS = {
     "fstring_self_documenting": 'y = f"{a=} {a=:x}"\n',
     "fstring_escapes": "y = f'a\\nb{x}\\'c'\n",
     "star_argument_on_its_own_line": "f(a,\n  *b)\n",
+    "chained_conditional": "x = 1 if a else 2 if b else 3\ny = (a if b else lambda: 0)\n",
+    "subscript_assignment_in_class_body": "class C:\n    table = {}\n    table['key'] = (1,\n        2)\n    table['n'] += 1\n",
+    "identifier_normalisation": "def f():\n    \u00b5 = 2\n    return \u03bc\n",
+    "fstring_debug_with_spaces": 'y = f"{a = !s}{ b+1 =:>{w}}"\n',
+    "fstring_escapes_in_format_spec": "y = f'{x:\\t>10}\\x41{{z}}'\n",
     "names_and_calls": "x = str(int(float(y)), *z)\nclass A:\n    pass\nprint(str, ego, workspace.r, globalParameters.p)\n",
 }
 
